@@ -23,7 +23,8 @@ type vfC05Case struct {
 	Ops     int            `json:"ops_per_client"`
 	Merge   bool           `json:"merge"`
 	Range   [2]int         `json:"range"`
-	Cancel  int            `json:"cancel_at_file,omitempty"`
+	Cancel  int            `json:"cancel_at_hit,omitempty"`
+	CancelP string         `json:"cancel_at_point,omitempty"`
 	Step    string         `json:"gc_step,omitempty"`
 	Action  string         `json:"client_action,omitempty"`
 	Seed    uint64         `json:"seed"`
@@ -56,8 +57,19 @@ func vfC05MaxVal(cfg store.VFConfig) int {
 func vfC05Preload(sut *vfSUT, keys []string, r *ref.Rand, maxVal int) *vfClient {
 	cl := &vfClient{hs: sut.hs, id: 50}
 	rounds := r.Range(2, 5)
+	// some keys go cold early, so that current records live in every file and not only in the
+	// files of the last round (a pass that loses an early file must lose acknowledged data)
+	cold := map[string]int{}
+	for i, k := range keys {
+		if i == 0 || r.Intn(3) == 0 {
+			cold[k] = r.Intn(rounds)
+		}
+	}
 	for i := 0; i < rounds; i++ {
 		for _, k := range keys {
+			if last, ok := cold[k]; ok && i > last {
+				continue
+			}
 			switch r.Intn(6) {
 			case 0:
 				cl.del(k)
@@ -69,7 +81,7 @@ func vfC05Preload(sut *vfSUT, keys []string, r *ref.Rand, maxVal int) *vfClient 
 	}
 	// make sure every key is live at least in some histories, and push the head forward
 	for _, k := range keys {
-		if r.Bool() {
+		if _, ok := cold[k]; !ok && r.Bool() {
 			cl.set(k, "random", r.Range(60, maxVal))
 		}
 	}
@@ -92,7 +104,7 @@ func vfC05(env *vfc.Env) {
 	if a.Targeted {
 		i := 0
 		for _, step := range []string{"gc.afterNewestCheck", "gc.afterCopy", "gc.updatepos.mid", "gc.afterRepoint", "gc.beforeClear", "gc.fileBegin"} {
-			for _, action := range []string{"set", "del", "get"} {
+			for _, action := range []string{"set", "del", "get", "cancel"} {
 				for _, merge := range []bool{false, true} {
 					id := fmt.Sprintf("p%d-%s-%s-merge=%v", i, strings.TrimPrefix(step, "gc."), action, merge)
 					i++
@@ -287,9 +299,15 @@ func vfC05Stress(env *vfc.Env, id string, r *ref.Rand, a *vfC04Args) {
 	cancelAt := 0
 	var cancelTrap *vfc.Trap
 	if r.Intn(4) == 0 {
+		// the request arrives while the pass is at a file boundary (also before the first file)
+		// or at one of its per-record steps
+		point := []string{"gc.fileBegin", "gc.fileBegin", "gc.afterNewestCheck", "gc.afterCopy", "gc.afterRepoint", "gc.beforeClear"}[r.Intn(6)]
 		cancelAt = r.Range(1, 3)
-		c.Cancel = cancelAt
-		cancelTrap = sched.AddTrap("cancel", "gc", "gc.fileBegin", cancelAt)
+		if point != "gc.fileBegin" && point != "gc.beforeClear" {
+			cancelAt = r.Range(1, 8)
+		}
+		c.Cancel, c.CancelP = cancelAt, point
+		cancelTrap = sched.AddTrap("cancel", "gc", point, cancelAt)
 	}
 	gcDone := make(chan struct{})
 	go func() {
@@ -302,6 +320,8 @@ func vfC05Stress(env *vfc.Env, id string, r *ref.Rand, a *vfC04Args) {
 			if cancelTrap.WaitParked(vfWatchdog) {
 				sut.hs.CancelGC(0)
 				res.Event("gc_cancelled", 1)
+				res.Event("gc_cancelled.at."+c.CancelP, 1)
+				res.Seen(fmt.Sprintf("gc-cancel/%s/hit=%d/merge=%v", c.CancelP, minI(c.Cancel, 3), c.Merge))
 			}
 			cancelTrap.Release()
 		}()
@@ -387,6 +407,10 @@ func vfC05Placement(env *vfc.Env, id string, r *ref.Rand, step, action string, m
 				cl.set(target, "random", r.Range(60, maxVal))
 			case "del":
 				cl.del(target)
+			case "cancel":
+				sut.hs.CancelGC(0)
+				res.Event("gc_cancelled", 1)
+				res.Event("gc_cancelled.at."+step, 1)
 			default:
 				cl.get(target, false, false)
 			}
